@@ -183,6 +183,10 @@ class pointwise_aggregates {
             // Update aggregate count and aggregate ids.
             aggr.count = m;
 
+            // Every aggregate could be too small for the requested near
+            // nullspace; there is nothing to coarsen then.
+            if (!m) throw error::empty_level();
+
             for(size_t i = 0; i < n; ++i) {
                 ptrdiff_t id = aggr.id[i];
                 if (id != removed) aggr.id[i] = count[id];
